@@ -1103,3 +1103,47 @@ def check_integer_coords(case, rec):
 SUBS.append(Sub("integer_coords", check_integer_coords, enum=enum_integer_coords,
                 doc="hand-written lattice meshes (SEG2 in the plane / in space / on the x axis, TRI3 and QUAD4 in the plane and embedded, TETRA4, "
                     "HEXA8) x integer dtype of the coordinate array x motion"))
+
+
+# ------------------------------------------------------------------------------------------
+# (added by the lead, round 9) the projector between two meshes of the same contour when the NEW mesh was given `additionalPoints`
+# (geometric points that are not nodes of the old mesh): a linear nodal field of the old mesh is carried exactly to every node of
+# the new one, the added points included
+
+
+def enum_projector_points(tier):
+    for et_old in ("TRI3", "TRI6", "QUAD4"):
+        for et_new in ("TRI3", "TRI6"):
+            for npts in (1, 2):
+                yield dict(old=et_old, new=et_new, npts=npts)
+
+
+def check_projector_points(case, rec):
+    from EasyFEA import ElemType, Mesher
+    from EasyFEA.Geoms import Point, Points
+
+    poly = [(0.0, 0.0), (4.0, 0.0), (4.0, 3.0), (0.0, 3.0)]
+    extra = [Point(1.7, 1.3), Point(3.1, 2.2)][: int(case["npts"])]
+    quad = case["old"].startswith("QUAD")
+    old = Mesher().Mesh_2D(Points([Point(*p) for p in poly], 1.0), [], ElemType(case["old"]), isOrganised=quad)
+    new = Mesher().Mesh_2D(Points([Point(*p) for p in poly], 0.45), [], ElemType(case["new"]), additionalPoints=extra)
+    sig = dict(old=case["old"], new=case["new"], dim=2, npts=int(case["npts"]))
+    rec.label(f"proj_points:{case['old']}->{case['new']}")
+    Xo, Xn = np.asarray(old.coord, float), np.asarray(new.coord, float)
+    a = np.array([0.5, 1.5, -2.0, 0.0])
+    f = lambda P: a[0] + P @ a[1:]  # noqa: E731
+    proj = Calc_projector(old, new)
+    un = np.asarray(proj @ f(Xo), float).ravel()
+    used = gm.used_nodes(new)
+    fscale = float(np.abs(f(Xo)).max() + 1.0)
+    at_extra = [int(np.argmin(np.linalg.norm(Xn[:, :2] - np.array([p.x, p.y]), axis=1))) for p in extra]
+    rec.require(all(np.linalg.norm(Xn[n, :2] - np.array([p.x, p.y])) < 1e-9 for n, p in zip(at_extra, extra)), "harness_extra_point_is_node",
+                "an additional point is not a node of the new mesh (harness)", **sig)
+    rec.close((un - f(Xn))[used], fscale, 1e-7, "projector_linear_extra_points",
+              f"{case['old']}->{case['new']} with {len(extra)} additionalPoints: proj @ u_old differs from the linear field; at the added "
+              f"points: {np.abs((un - f(Xn))[at_extra]).tolist()}", **sig)
+    rec.nontrivial(True)
+
+
+SUBS.append(Sub("projector_points", check_projector_points, enum=enum_projector_points,
+                doc="old element type x new element type x number of additionalPoints of the new mesh"))
